@@ -20,4 +20,5 @@ let () =
   | "xsemtrace" -> Xdrv.xsemtrace_main ()
   | "c07mode" -> C07drv.mode_main () | "c07tree" -> C07drv.tree_main () | "c07front" -> C07drv.front_main () | "c07xsem" -> C07drv.xsem_main () | "c07run" -> C07drv.run_main () | "c07gc" -> C07drv.gc_main ()
   | "xfront" -> Xfrontdrv.main ()
+  | "xfront2sx" -> Xfrontdrv.sx_main ()
   | c -> prerr_endline ("unknown command " ^ c); exit 2
